@@ -19,6 +19,19 @@ impl SerError for Error {
     }
 }
 
+/// Render a value through its `Display` implementation. The provided
+/// `Serializer::collect_str` goes through `to_string`, which panics when the
+/// implementation fails; a failing value is a serialization error instead
+fn display_to_string<T: ?Sized + Display>(value: &T) -> Result<String> {
+    use std::fmt::Write;
+
+    let mut text = String::new();
+    write!(text, "{value}").map_err(|_| {
+        Error::ValueSerializationError("a Display implementation returned an error".to_string())
+    })?;
+    Ok(text)
+}
+
 /// The announced length of a sequence is only a hint, a huge one must not be
 /// allocated up front (the allocation would panic or abort before the first
 /// element is seen)
@@ -96,6 +109,10 @@ impl Serializer for ValueSerializer {
 
     fn serialize_str(self, value: &str) -> Result<Value> {
         Ok(Value::String(value.to_string()))
+    }
+
+    fn collect_str<T: ?Sized + Display>(self, value: &T) -> Result<Value> {
+        display_to_string(value).map(Value::String)
     }
 
     fn serialize_bytes(self, value: &[u8]) -> Result<Value> {
@@ -416,6 +433,10 @@ impl Serializer for StringSerializer {
 
     fn serialize_str(self, value: &str) -> Result<String> {
         Ok(value.to_string())
+    }
+
+    fn collect_str<T: ?Sized + Display>(self, value: &T) -> Result<String> {
+        display_to_string(value)
     }
 
     fn serialize_bytes(self, _: &[u8]) -> Result<String> {
